@@ -2,7 +2,7 @@
 use crate::util::*;
 use bytes::BytesMut;
 use desert::{
-    BinaryInput, BinaryOutput, DeserializationContext, OwnedInput, SizeCalculator, SliceInput,
+    BinaryInput, BinaryOutput, DeserializationContext, OwnedInput, SerializationContext, SizeCalculator, SliceInput,
 };
 use std::io::{BufRead, Write};
 
@@ -13,6 +13,15 @@ fn one_u32(v: u32, extra: &[u8]) -> String {
     bm.write_var_u32(v);
     let mut sc = SizeCalculator::new();
     sc.write_var_u32(v);
+    let mut cx = SerializationContext::new(Vec::<u8>::new());
+    cx.push_buffer(Vec::new());
+    cx.write_var_u32(v);
+    let buffered = cx.pop_buffer();
+    cx.write_var_u32(v);
+    let direct = cx.into_output();
+    if buffered != vec || direct != vec {
+        return format!("CONTEXT-SINK-DIFFERS vec={} buffered={} direct={}", hex(&vec), hex(&buffered), hex(&direct));
+    }
     let mut data = vec.clone();
     data.extend_from_slice(extra);
     let mut si = SliceInput::new(&data);
@@ -51,6 +60,15 @@ fn one_i32(v: i32, extra: &[u8]) -> String {
     bm.write_var_i32(v);
     let mut sc = SizeCalculator::new();
     sc.write_var_i32(v);
+    let mut cx = SerializationContext::new(Vec::<u8>::new());
+    cx.push_buffer(Vec::new());
+    cx.write_var_i32(v);
+    let buffered = cx.pop_buffer();
+    cx.write_var_i32(v);
+    let direct = cx.into_output();
+    if buffered != vec || direct != vec {
+        return format!("CONTEXT-SINK-DIFFERS vec={} buffered={} direct={}", hex(&vec), hex(&buffered), hex(&direct));
+    }
     let mut data = vec.clone();
     data.extend_from_slice(extra);
     let mut si = SliceInput::new(&data);
@@ -178,10 +196,46 @@ fn sweep_range(lo: u64, hi: u64, stride: u64) -> (u64, Option<String>) {
     let mut buf = [0u8; 5];
     let mut vec: Vec<u8> = Vec::with_capacity(8);
     let mut bm = BytesMut::with_capacity(8);
+    // the fourth sink: a SerializationContext, writing into a pushed chunk buffer (every value) and straight
+    // through to its output (every 64th value: the output cannot be emptied)
+    let mut cx = SerializationContext::new(Vec::<u8>::new());
+    let mut scratch: Vec<u8> = Vec::with_capacity(16);
     let mut x = lo;
     while x < hi {
         let v = x as u32;
         // unsigned
+        let len = leb128(v, &mut buf);
+        scratch.clear();
+        cx.push_buffer(std::mem::take(&mut scratch));
+        cx.write_var_u32(v);
+        scratch = cx.pop_buffer();
+        if scratch[..] != buf[..len] {
+            return (n, Some(format!("u {v} written into a chunk buffer of a SerializationContext: {} ref {}", hex(&scratch), hex(&buf[..len]))));
+        }
+        let zlen = leb128(zigzag_ref(v as i32), &mut buf);
+        scratch.clear();
+        cx.push_buffer(std::mem::take(&mut scratch));
+        cx.write_var_i32(v as i32);
+        scratch = cx.pop_buffer();
+        if scratch[..] != buf[..zlen] {
+            return (n, Some(format!("i {} written into a chunk buffer of a SerializationContext: {} ref {}", v as i32, hex(&scratch), hex(&buf[..zlen]))));
+        }
+        if (x / stride) % 64 == 0 {
+            let mut direct = SerializationContext::new(Vec::<u8>::with_capacity(16));
+            direct.write_var_i32(v as i32);
+            direct.write_var_u32(v);
+            let out = direct.into_output();
+            let len = leb128(v, &mut buf);
+            if out[..zlen] != {
+                let mut b2 = [0u8; 5];
+                let l2 = leb128(zigzag_ref(v as i32), &mut b2);
+                b2[..l2].to_vec()
+            }[..]
+                || out[zlen..] != buf[..len]
+            {
+                return (n, Some(format!("{v} written through a SerializationContext: {}", hex(&out))));
+            }
+        }
         let len = leb128(v, &mut buf);
         vec.clear();
         vec.write_var_u32(v);
